@@ -445,7 +445,7 @@ def render_rows(rows, renderers, ctx):
             cells = [cell if isinstance(cell, list) else [cell] for cell in cells]
 
             # Compute the maximum number of lines in any cell.
-            nlines = max(len(cell) for cell in cells)
+            nlines = max(1, max(len(cell) for cell in cells))
 
             # Add placeholder lines to short multi line cells.
             for cell in cells:
